@@ -131,6 +131,20 @@ CHECKS["C02"] = (
     "DESIGN.md §4 C02",
 )
 
+CHECKS["C10"] = (
+    "E-CH",
+    "CrossHair/z3 symbolic execution of parse_object -> validate -> parse_object -> dump on parser shapes with symbolic leaves (fixed-point assertions), and of adapt_typehints twice on a type grammar",
+    "Bounded symbolic model checking of the real code. For 16 parser shapes with symbolic leaves, kinds and lengths (path trees "
+    "exhausted): every configuration returned by parse_object validates, parses again as an object to an equal configuration type "
+    "for type, and the dict that dump serialises is a normal form (dumping the re-parsed dump gives the same dict). Kernel: "
+    "adapt_typehints applied twice equals once, and serialise->deserialise returns the adapted value, on 20 type hints of the C02 "
+    "grammar. Thorough: byte identity dump(parse_string(dump(cfg))) == dump(cfg) through the real text in three formats on "
+    "solver-chosen concrete leaves.",
+    "Trusted: CrossHair/z3, floats as reals, the text stub (dict captured before serialisation) in the quick tier. Outside: byte "
+    "identity for all values, Path types, str leaves beyond the menus.",
+    "DESIGN.md §4 C10",
+)
+
 NOT_APPLICABLE = {
     "C13": "the resolver's only input is source code on disk (inspect.getsource/ast.parse/import); a symbolic program cannot be "
     "represented for that code and types/defaults are part of the program, so no dimension of the quantifier can be a solver variable",
